@@ -196,6 +196,11 @@ func (j *Joe) Shutdown(ctx context.Context) (err error) {
 }
 
 func (j *Joe) removeSubscriber(sub subscriber) {
+	// The subscriber may have already been removed: when its Send or Flush fails
+	// right as its context is cancelled, the unsubscription still arrives afterwards.
+	if _, ok := j.subscribers[sub]; !ok {
+		return
+	}
 	delete(j.subscribers, sub)
 	close(sub)
 }
